@@ -227,6 +227,21 @@ Proof.
   unfold all_indexed_typed, all_indexed. rewrite !forallb_forall. intros H s Hs. apply indexed_typed_indexed. now apply H.
 Qed.
 
+Lemma clear_inv st : inv st -> inv (clear_cache st).
+Proof. intros [_ [HJ HP]]. split; [intros x []|]. split; [exact HJ|exact HP]. Qed.
+
+Lemma run_dist_inv : forall h st, inv st -> inv (run_dist st h).
+Proof.
+  induction h as [|a h IH]; intros st Hinv; cbn [run_dist]; [assumption|]. apply IH, clear_inv. now apply step_inv.
+Qed.
+
+Lemma acked_indexed_typed_dist h : all_indexed_typed (run_dist init h) = true.
+Proof.
+  unfold all_indexed_typed. apply forallb_forall. intros [[fp d] t] Hin.
+  destruct (run_dist_inv h init inv_init) as [_ [HJ _]].
+  apply indexed_typed_of_row. now apply HJ.
+Qed.
+
 Lemma acked_indexed_typed_all h : all_indexed_typed (run init h) = true.
 Proof.
   unfold all_indexed_typed. apply forallb_forall. intros [[fp d] t] Hin.
